@@ -85,12 +85,15 @@ def sonrs():
     return d
 
 
-def profile_response(urls, dtprofup, code=0, closing=True, extra_finame="Fixture Bank", sonrs_dtprofup=None):
+def profile_response(urls, dtprofup, code=0, closing=True, extra_finame="Fixture Bank", sonrs_dtprofup=None, sonrs_status=None):
     """urls: {"BANKMSGSET": url, "CREDITCARDMSGSET": url, "INVSTMTMSGSET": url} (any subset);
     code 0 -> PROFRS with DTPROFUP; code 1 -> 'up to date' (no PROFRS); other -> error status, no PROFRS."""
     U = M.universe()
     ofx = {"cls": "OFX", "kw": {}, "list": []}
     so = sonrs()
+    if sonrs_status is not None:
+        # (code, severity) of the sign-on response: independent of the status of the profile transaction
+        so["kw"]["status"] = {"cls": "STATUS", "kw": {"code": ["int", sonrs_status[0]], "severity": ["tok", sonrs_status[1]]}, "list": []}
     if sonrs_dtprofup is not None:
         # the sign-on response has a DTPROFUP of its own (document order: before the one of PROFRS)
         so["kw"]["dtprofup"] = sonrs_dtprofup
